@@ -194,9 +194,12 @@ Section Correct.
   (* ---------------- the supported fragment (grows as cases are proved) ---------------- *)
   Fixpoint supported (n : node) : bool :=
     match n with
-    | NEmpty | NChar _ | NByteSequence _ | NByteSet _ | NCharSet _ | NMatchAny | NMatchAnyExceptLT | NBracket _ => true
+    | NEmpty | NChar _ | NByteSequence _ | NByteSet _ | NCharSet _ | NMatchAny | NMatchAnyExceptLT | NBracket _
+    | NAnchor _ _ | NWordBoundary _ _ | NBackRef _ _ => true
     | NCat l => (fix go (l : list node) : bool := match l with [] => true | x :: t => supported x && go t end) l
     | NAlt a b => supported a && supported b
+    | NCaptureGroup _ c _ => supported c
+    | NLookaround _ _ _ _ c => supported c
     | _ => false
     end.
 
@@ -377,6 +380,130 @@ Section Correct.
           -- apply step_jump. rewrite Q1. replace (S off + length ca)%nat with (S (off + length ca)) by lia. exact Hij.
           -- discriminate.
     Qed.
+    (* capture group: BeginCG id; <c>; EndCG id *)
+    Lemma group_ok fwd id c nm off es code es' x l : supported c = true ->
+      ir_results ix (p_unicode prog) utf16 h (S f) (NCaptureGroup id c nm) fwd x = Some l ->
+      emit_node utf16 (p_unicode prog) (NCaptureGroup id c nm) off (negb fwd) es = Ok (code, es') ->
+      code_at off code -> brackets_ok es' ->
+      forall s, ps_ip s = off -> obs s = x -> ps_l1 s = 0 -> (es_next_loop es' <= length (ps_loops s))%nat ->
+      exists ss, map obs ss = l /\ Forall (at_end s (off + length code) (es_next_loop es) (es_next_loop es')) ss /\ onto fwd [s] ss.
+    Proof.
+      intros Hsc Hr He Hc Hbr s Hip Hobs Hl1 Hlen.
+      destruct x as [p gs]. cbn [ir_results] in Hr.
+      destruct (upd_group id (set_group_start fwd p) gs) as [gs1|] eqn:E1; [|discriminate].
+      destruct (ir_results ix (p_unicode prog) utf16 h f c fwd (p, gs1)) as [lc|] eqn:Ec; [|discriminate].
+      simpl in He.
+      match type of He with (do rc <- emit_node _ _ _ _ _ ?e1; _) = _ => set (es1 := e1) in * end.
+      destruct (emit_node utf16 (p_unicode prog) c (S off) (negb fwd) es1) as [e|[cc ec]] eqn:Eem; simpl in He; [discriminate|].
+      inversion He; subst code es'. clear He.
+      apply code_at_cons in Hc as [Hi0 Hc]. apply code_at_app in Hc as [Hcc Hce]. apply code_at_cons in Hce as [Hie _].
+      rewrite <- Hip in Hi0.
+      assert (Hp : ps_pos s = p) by (unfold obs in Hobs; congruence).
+      assert (Hg : ps_groups s = gs) by (unfold obs in Hobs; congruence).
+      pose proof (emit_extends _ _ _ _ _ _ _ _ Eem) as (L1 & _ & _). simpl in L1.
+      set (s1 := ps_set_ip (ps_set_groups s gs1) (S (ps_ip s))).
+      assert (Hstep1 : pk_step ix prog h (fun _ _ => PNoMatch) fwd s = inr (PContinue s1)).
+      { unfold pk_step. rewrite Hi0. unfold set_group. rewrite Hg, Hp.
+        unfold upd_group in E1. destruct (nth_error gs id) as [gd|]; [|discriminate].
+        inversion E1; subst gs1. unfold set_group_start. destruct fwd; reflexivity. }
+      destruct (IHf c fwd (S off) es1 cc ec (p, gs1) lc Hsc Ec Eem Hcc Hbr s1) as (ssc & C1 & C2 & C3);
+        try (unfold s1, obs; simpl; first [reflexivity | congruence | lia | assumption]).
+      (* every result runs the EndCG *)
+      set (E := (S off + length cc)%nat) in *.
+      set (rf := fun y : mst => match upd_group id (set_group_end fwd (fst y)) (snd y) with
+                                | Some g2 => Some [(fst y, g2)] | None => None end).
+      rewrite <- C1 in Hr.
+      destruct (bind_states fwd (fun t t' => ps_ip t' = S E /\ ps_l1 t' = ps_l1 t /\ ps_loops t' = ps_loops t) rf ssc l Hr)
+        as (tts & T1 & T2).
+      { intros t l0 Hin Hrf. rewrite Forall_forall in C2. destruct (C2 t Hin) as (Q1 & Q2 & Q3 & Q4).
+        unfold rf in Hrf. simpl in Hrf.
+        destruct (upd_group id (set_group_end fwd (ps_pos t)) (ps_groups t)) as [g2|] eqn:E2; [|discriminate].
+        inversion Hrf; subst l0.
+        exists [ps_set_ip (ps_set_groups t g2) (S (ps_ip t))]. repeat split.
+        - constructor; [|constructor]. simpl. repeat split; auto; congruence.
+        - apply (onto_plain fwd t (EndCG id) (PContinue (ps_set_ip (ps_set_groups t g2) (S (ps_ip t))))); auto.
+          + rewrite Q1. exact Hie.
+          + assert (Hie' : nth_error (p_insns prog) (ps_ip t) = Some (EndCG id)) by (rewrite Q1; exact Hie).
+            unfold pk_step. rewrite Hie'. unfold set_group.
+            unfold upd_group in E2. destruct (nth_error (ps_groups t) id) as [gd|]; [|discriminate].
+            inversion E2; subst g2. unfold set_group_end. destruct fwd; reflexivity.
+          + discriminate. }
+      exists (concat tts). repeat split; auto.
+      - apply (forall2_at_end (fun t => at_end s1 E (es_next_loop es1) (es_next_loop ec) t)
+                 (fun t t' => ps_ip t' = S E /\ ps_l1 t' = ps_l1 t /\ ps_loops t' = ps_loops t) _ ssc tts fwd); auto.
+        intros t t' (Q1 & Q2 & Q3 & Q4) (R1 & R2 & R3). repeat split.
+        + rewrite R1. unfold E. simpl. rewrite app_length. simpl. lia.
+        + congruence.
+        + rewrite R3. exact Q3.
+        + intros i Hi. rewrite R3. apply Q4. exact Hi.
+      - eapply onto_trans.
+        + apply (onto_plain fwd s (BeginCG id) (PContinue s1)); auto. discriminate.
+        + simpl push. eapply onto_trans; [exact C3|]. eapply onto_of_forall2. exact T2.
+    Qed.
+
+    (* lookaround: Look..; <c>; Goal — the contents run as a nested attempt in their own direction *)
+    Lemma look_ok fwd ng bw sg eg c off es code es' x l : supported c = true ->
+      ir_results ix (p_unicode prog) utf16 h (S f) (NLookaround ng bw sg eg c) fwd x = Some l ->
+      emit_node utf16 (p_unicode prog) (NLookaround ng bw sg eg c) off (negb fwd) es = Ok (code, es') ->
+      code_at off code -> brackets_ok es' ->
+      forall s, ps_ip s = off -> obs s = x -> ps_l1 s = 0 -> (es_next_loop es' <= length (ps_loops s))%nat ->
+      exists ss, map obs ss = l /\ Forall (at_end s (off + length code) (es_next_loop es) (es_next_loop es')) ss /\ onto fwd [s] ss.
+    Proof.
+      intros Hsc Hr He Hc Hbr s Hip Hobs Hl1 Hlen.
+      destruct x as [p gs]. cbn [ir_results] in Hr.
+      destruct (ir_results ix (p_unicode prog) utf16 h f c (negb bw) (p, gs)) as [lc|] eqn:Ec; [|discriminate].
+      simpl in He.
+      destruct (emit_node utf16 (p_unicode prog) c (S off) bw es) as [e|[cc ec]] eqn:Eem; simpl in He; [discriminate|].
+      inversion He; subst code es'. clear He.
+      apply code_at_cons in Hc as [Hi0 Hc]. apply code_at_app in Hc as [Hcc Hce]. apply code_at_cons in Hce as [Hie _].
+      rewrite <- Hip in Hi0 at 1.
+      assert (Hp : ps_pos s = p) by (unfold obs in Hobs; congruence).
+      assert (Hg : ps_groups s = gs) by (unfold obs in Hobs; congruence).
+      pose proof (emit_extends _ _ _ _ _ _ _ _ Eem) as (L1 & _ & _).
+      set (cont := (off + 1 + length cc + 1)%nat) in *.
+      assert (Hcont : (off + length ((if bw then Lookbehind ng sg eg cont else Lookahead ng sg eg cont) :: cc ++ [Goal]))%nat = cont).
+      { unfold cont. simpl. rewrite app_length. simpl. lia. }
+      rewrite Hcont.
+      set (s1 := ps_set_ip s (S (ps_ip s))).
+      assert (Eem' : emit_node utf16 (p_unicode prog) c (S off) (negb (negb bw)) es = Ok (cc, ec))
+        by (rewrite Bool.negb_involutive; exact Eem).
+      destruct (IHf c (negb bw) (S off) es cc ec (p, gs) lc Hsc Ec Eem' Hcc Hbr s1) as (ssc & C1 & C2 & C3);
+        try (unfold s1, obs; simpl; first [reflexivity | congruence | lia | assumption]).
+      assert (Hld : look_dir prog s = Some (negb bw)).
+      { unfold look_dir. rewrite Hi0. destruct bw; reflexivity. }
+      set (nres := match ssc with [] => None | y :: _ => Some y end).
+      assert (Hden : Den (negb bw) [s1] nres).
+      { specialize (C3 [] nres). rewrite app_nil_r in C3. simpl in C3. apply C3.
+        unfold nres. destruct ssc as [|y rest]; [constructor|].
+        pose proof (Forall_inv C2) as (Q1 & _).
+        assert (Hgy : nth_error (p_insns prog) (ps_ip y) = Some Goal) by (rewrite Q1; exact Hie).
+        apply (D_complete ix prog h (negb bw) y rest None).
+        - constructor. unfold look_dir. rewrite Hgy. reflexivity.
+        - unfold pk_step. rewrite Hgy. reflexivity. }
+      assert (Hstep : pk_step ix prog h (fun _ _ => out_of nres) fwd s =
+                      inr (match nres with
+                           | Some y => if ng then PFail else PContinue (ps_set_pos (ps_set_ip y cont) (ps_pos s))
+                           | None => if ng then PContinue (ps_set_pos (ps_set_ip s1 cont) (ps_pos s)) else PFail
+                           end)).
+      { unfold pk_step. rewrite Hi0. destruct bw; unfold pk_lookaround; fold s1; destruct nres; reflexivity. }
+      subst lc. unfold nres in *. destruct ssc as [|y rest]; simpl in Hr; inversion Hr; subst l; clear Hr.
+      - (* the contents do not match *)
+        destruct ng.
+        + exists [ps_set_pos (ps_set_ip s1 cont) (ps_pos s)]. repeat split.
+          * simpl. unfold obs. simpl. rewrite Hp, Hg. reflexivity.
+          * constructor; [|constructor]. repeat split; auto.
+          * apply (onto_look ix prog h fwd s (negb bw) None (PContinue (ps_set_pos (ps_set_ip s1 cont) (ps_pos s)))); auto. discriminate.
+        + exists []. repeat split; [constructor|].
+          apply (onto_look ix prog h fwd s (negb bw) None PFail); auto. discriminate.
+      - pose proof (Forall_inv C2) as (Q1 & Q2 & Q3 & Q4).
+        destruct ng.
+        + exists []. repeat split; [constructor|].
+          apply (onto_look ix prog h fwd s (negb bw) (Some y) PFail); auto. discriminate.
+        + exists [ps_set_pos (ps_set_ip y cont) (ps_pos s)]. repeat split.
+          * simpl. unfold obs. simpl. rewrite Hp. reflexivity.
+          * constructor; [|constructor]. repeat split; auto.
+          * apply (onto_look ix prog h fwd s (negb bw) (Some y) (PContinue (ps_set_pos (ps_set_ip y cont) (ps_pos s)))); auto. discriminate.
+    Qed.
   End Cases.
 
   (* leaves through their emitted code *)
@@ -515,10 +642,37 @@ Section Correct.
         apply andb_true_iff in Hsup as [Ha Hb]. eapply (alt_ok f IHf fwd a b); eauto.
       + (* MatchAny *) eapply leaf_ok'; eauto; [discriminate | intros; reflexivity].
       + (* MatchAnyExceptLT *) eapply leaf_ok'; eauto; [discriminate | intros; reflexivity].
-      + discriminate Hsup.
-      + discriminate Hsup.
-      + discriminate Hsup.
-      + discriminate Hsup.
+      + (* Anchor *)
+        destruct x as [p gs]. cbn [ir_results] in Hr. simpl in He. inversion He; subst code es'. clear He.
+        apply code_at_cons in Hc as [Hi _]. rewrite <- Hip in Hi.
+        assert (Hp : ps_pos s = p) by (unfold obs in Hobs; congruence).
+        replace (off + length [if sol then StartOfLine ml else EndOfLine ml])%nat with (S (ps_ip s)) by (simpl; lia).
+        eapply (cond_step_ok fwd s _ _ (p, gs) l); eauto.
+        * destruct sol; reflexivity.
+        * unfold pk_step. rewrite Hi, Hp. destruct sol; reflexivity.
+      + (* WordBoundary *)
+        destruct x as [p gs]. cbn [ir_results] in Hr. simpl in He. inversion He; subst code es'. clear He.
+        apply code_at_cons in Hc as [Hi _]. rewrite <- Hip in Hi.
+        assert (Hp : ps_pos s = p) by (unfold obs in Hobs; congruence).
+        replace (off + length [if ui then WordBoundaryUnicodeICase inv else WordBoundary inv])%nat with (S (ps_ip s)) by (simpl; lia).
+        eapply (cond_step_ok fwd s _ (do b <- word_boundary ix ui h p; Ok (negb (Bool.eqb b inv))) (p, gs) l); eauto.
+        * destruct ui; reflexivity.
+        * unfold pk_step. rewrite Hi, Hp. destruct ui; destruct (word_boundary ix _ h p); reflexivity.
+      + (* CaptureGroup *) eapply (group_ok f IHf fwd id c nm); eauto.
+      + (* BackRef *)
+        destruct x as [p gs]. cbn [ir_results] in Hr. simpl in He.
+        destruct (g =? 0) eqn:Eg; [discriminate|]. inversion He; subst code es'. clear He.
+        apply code_at_cons in Hc as [Hi _]. rewrite <- Hip in Hi.
+        assert (Hp : ps_pos s = p) by (unfold obs in Hobs; congruence).
+        assert (Hg : ps_groups s = gs) by (unfold obs in Hobs; congruence).
+        replace (off + length [BackRef (N.to_nat (g - 1)) ic])%nat with (S (ps_ip s)) by (simpl; lia).
+        destruct (nth_error gs (N.to_nat (g - 1))) as [gd|] eqn:Egd; [|discriminate].
+        destruct (gd_range gd) as [[rs re]|] eqn:Er.
+        * eapply (adv_step_ok fwd s _ (backref_match ix prog ic fwd h p rs re) l); eauto.
+          -- unfold pk_step. rewrite Hi, Hg, Egd, Er, Hp. reflexivity.
+          -- rewrite Hg. rewrite (backref_match_prog prog (dummy_prog (p_unicode prog))) by reflexivity. exact Hr.
+        * eapply (cond_step_ok fwd s _ (Ok true) (p, gs) l); eauto.
+          unfold pk_step. rewrite Hi, Hg, Egd, Er. reflexivity.
       + (* Bracket *)
         destruct (bracket_as_ascii b) as [bm|] eqn:Eb.
         * eapply leaf_ok'; eauto.
@@ -526,7 +680,7 @@ Section Correct.
           -- intros p gs. simpl. rewrite Eb. reflexivity.
         * destruct x as [p gs]. cbn [ir_results] in Hr. rewrite Eb in Hr. eapply bracket_ok; eauto.
       + discriminate Hsup.
-      + discriminate Hsup.
+      + (* Lookaround *) eapply (look_ok f IHf fwd ng bw sg eg c); eauto.
       + discriminate Hsup.
       + discriminate Hsup.
   Qed.
